@@ -7,9 +7,11 @@ import Lc.Model.StageLine
 import Lc.Spec.Chmod
 import Lc.Spec.AddFiles
 import Lc.Lemmas.StageLine
+import Lc.Lemmas.StageClosed
 
 namespace Lc.Props.C17
 open Lc Lc.StageLine Lc.Spec Lc.Lemmas.StageLine
+open Lc.TreeWF (CleanAbs)
 
 /-! ### no line can crash the tool -/
 
@@ -396,6 +398,50 @@ example : renderMode [⟨some 117, false, b!"rw"⟩, ⟨some 97, true, b!"r"⟩]
 
 /-- the clause-order defect (fixed in f86f9a6) as a value: `u+r,a-r` leaves no read bit -/
 example : parseModString b!"u+r,a-r" = .ok (0o7333, 0) := by rfl
+
+/-! ### names of add-files lines are clean absolute paths (fix "add-files names are cleaned") -/
+
+/-- **parseLine_name_clean**: whenever `parseLine` stores a name at all (it does for every line
+    it accepts, see `parseLine_accepted_name_clean`), that name is a clean absolute path —
+    `path.Clean name = name`, leading slash: no `//`, no `.` or `..` element, no trailing
+    slash — and it is not the root.  For every field list; no hypothesis on the options.
+    This is what C06's `parents_precede` assumes of the names of add steps (`StepClean`). -/
+theorem parseLine_name_clean (fields : List Bytes)
+    (hname : (parseLineFields fields).entry.name ≠ []) :
+    CleanAbs (parseLineFields fields).entry.name ∧
+    (parseLineFields fields).entry.name ≠ [SLASH] := by
+  rcases parseLineFields_name fields with h | ⟨habs, hlen, hn⟩
+  · exact absurd h.1 hname
+  · rw [hn]
+    refine ⟨Lc.Stage.pathClean_cleanAbs _ habs, ?_⟩
+    intro e; rw [e] at hlen; simp at hlen
+
+/-- the same for a whole line: a line `parseLine` accepts (no error logged) has a name, and it
+    is a clean absolute path other than the root -/
+theorem parseLine_accepted_name_clean (line : Bytes) (r : LineResult)
+    (h : parseLine line = .ok r) (hok : r.errors = []) :
+    CleanAbs r.entry.name ∧ r.entry.name ≠ [SLASH] := by
+  have key : ∀ fields, (parseLineFields fields).errors = [] →
+      CleanAbs (parseLineFields fields).entry.name ∧ (parseLineFields fields).entry.name ≠ [SLASH] := by
+    intro fields he
+    apply parseLine_name_clean
+    rcases parseLineFields_name fields with h1 | ⟨_, hlen, hn⟩
+    · exact absurd he h1.2
+    · rw [hn]; intro e; rw [e] at hlen; simp at hlen
+  unfold parseLine at h
+  split at h
+  · cases h; exact key _ hok
+  · cases h
+  · cases h; exact key _ hok
+
+/-- non-vacuity: a name spelt with `//`, `..` and a trailing slash is stored clean; the unclean
+    spelling itself is not `CleanAbs`; a name that cleans to `/` is refused -/
+example : (parseLineFields [b!"file", b!"/opt//a/../x/", b!"uid=3"]).entry.name = b!"/opt/x" ∧
+    (parseLineFields [b!"file", b!"/opt//a/../x/", b!"uid=3"]).errors = [] ∧
+    ¬ CleanAbs b!"/opt//a/../x/" ∧
+    (parseLineFields [b!"dir", b!"/a/.."]).errors = ["no-name"] := by decide
+example : (parseLine b!"file \"/opt/./my dir/\" uid=3").map (fun r => (r.entry.name, r.errors)) =
+    .ok (b!"/opt/my dir", []) := by decide
 
 /-! ### recipe lines (witnesses of the two recipe fixes on the model of the loop in `main`) -/
 
